@@ -46,6 +46,8 @@ pub fn settle_ndt(q_settle: Option<i64>, tod: Option<(u32, u32)>) -> Option<chro
 fn gen_settle_day(rng: &mut Rng) -> i64 {
     match rng.below(20) {
         0 => rng.i64_in(-719_162, 2_932_896),
+        3 if rng.chance(0.5) => rng.i64_in(2_932_897, 6_000_000), // years 10000..18000
+        3 => rng.i64_in(-2_500_000, -719_163),                    // before the common era
         1 => rng.i64_in(100_000, 130_000), // years 2243..2325: beyond i64 nanoseconds
         2 => rng.i64_in(-140_000, -100_000), // years 1586..1696
         _ => rng.i64_in(10957, 22000),
@@ -168,7 +170,7 @@ pub fn generate(rng: &mut Rng, tier: Tier) -> Plan {
             for q in quotes.iter_mut() {
                 match &mut q.num {
                     Num::D { g, .. } | Num::D2 { g, .. } => {
-                        if !g.iter().any(|(n, _)| n == &name) {
+                        if !g.is_empty() && !g.iter().any(|(n, _)| n == &name) {
                             g[0].0 = name.clone();
                         }
                         break;
@@ -317,7 +319,7 @@ pub fn generate(rng: &mut Rng, tier: Tier) -> Plan {
         let settle = match q.settle {
             Some(d) => {
                 if rng.chance(0.5) {
-                    Some((d + rng.i64_in(1, 30)).min(2_932_896))
+                    Some((d + rng.i64_in(1, 30)).min(6_000_000))
                 } else {
                     None
                 }
@@ -369,7 +371,7 @@ pub fn generate(rng: &mut Rng, tier: Tier) -> Plan {
             let new_settle = match cur[0].settle {
                 Some(d) => {
                     if rng.chance(0.8) {
-                        Some((d + rng.i64_in(1, 40)).min(2_932_896))
+                        Some((d + rng.i64_in(1, 40)).min(6_000_000))
                     } else {
                         None
                     }
